@@ -8,6 +8,7 @@ R2 rollback: the handler that undoes a partially built service catches every exc
    same peer set
 R3 uniqueness checks dominate the first insert (node sliver, top-level service sliver, backend add_node)
 R4 composite operations (>= 2 creation steps, later steps fed with derived data) need compensation - reported as findings
+R7 a compensating handler addresses the created element by <element>.node_id, never by an optional id argument
 R6 a rollback handler that removes id X does not also guard the call that creates X (a refused creation would delete the
    element that already owns X)
 R5 the creation step that receives the caller's **kwargs is the first creation step of a composite (or is compensated)
@@ -283,6 +284,20 @@ def run(prog, rep):
     rm = [c for c in ast.walk(h) if isinstance(c, ast.Call) and call_name(c) == 'remove_ns_with_cps_and_links']
     if rm and ast.unparse(kwarg(rm[0], 'node_id') or ast.Constant(None)) != 'self.node_id':
         rep.violation('R2', loc(nmod, rm[0]), 'NetworkService.__init__', norm(rm[0]), 'the rollback must remove this service')
+    # what the rollback undoes is what has been done: an item is put on the list the handler iterates only after its step succeeded
+    undo_lists = {ast.unparse(l.iter) for l in ast.walk(h) if isinstance(l, ast.For) and isinstance(l.iter, ast.Name) and
+                  any(isinstance(c, ast.Call) and call_name(c) in ('disconnect_interface',) or (isinstance(c, ast.Call) and call_name(c) in REMOVERS) for c in ast.walk(l))}
+    for ul_ in sorted(undo_lists):
+        recs = [(i_, st_) for i_, st_ in enumerate(tr.body) for c in ast.walk(st_) if isinstance(c, ast.Call) and call_name(c) in ('append', 'add')
+                and isinstance(c.func.value, ast.Name) and c.func.value.id == ul_]
+        steps = [i_ for i_, st_ in enumerate(tr.body) for c in ast.walk(st_) if isinstance(c, ast.Call) and call_name(c) == 'connect_interface']
+        rep.instance('R2', f'NetworkService.__init__: undo list {ul_}: recorded at body positions {[i_ for i_, _ in recs]}, step at {steps}')
+        for i_, st_ in recs:
+            if steps and i_ < max(steps):
+                rep.violation('R2', loc(nmod, st_), 'NetworkService.__init__', f'{norm(st_, 60)} precedes the step it records',
+                              f'the interface is put on the undo list {ul_} before connect_interface has succeeded for it: when that call is '
+                              f'refused (e.g. the interface is already connected to another service) the rollback disconnects it anyway and '
+                              f'tears down a connection this call never made')
     # every path through the handler re-raises
     last = h.body[-1]
     reraises = isinstance(last, ast.Raise) or (isinstance(last, ast.If) and False)
@@ -356,6 +371,29 @@ def run(prog, rep):
                                       f'the handler of this try removes {rtxt}, and the call that creates {rtxt} is inside the guarded body: when '
                                       f'that creation itself is refused because the id is already in use, the handler deletes the element that '
                                       f'already owned the id (with its edges) - a failed call destroys an unrelated element')
+
+    # ---- R7: the compensation removes the element that was created, by the id that element actually has ----
+    rep.rule('R7', 'a compensating handler addresses the created element through the element (its node_id), not through an optional argument', floor=3)
+    for key, (c, f) in sorted(summ.methods.items(), key=lambda kv: (kv[0][0], kv[0][1])):
+        for tr_ in [t for t in walk_no_nested(f) if isinstance(t, ast.Try)]:
+            for h_ in tr_.handlers:
+                for rc_ in [x for x in ast.walk(h_) if isinstance(x, ast.Call) and call_name(x) in REMOVERS]:
+                    rid = kwarg(rc_, 'node_id') or (rc_.args[0] if rc_.args else None)
+                    if rid is None:
+                        continue
+                    fq_ = f'{c.name}.{key[1]}'
+                    optional = set()
+                    a_ = f.args
+                    for p_, d_ in list(zip([x.arg for x in a_.args][len(a_.args) - len(a_.defaults):], a_.defaults)) + \
+                            [(x.arg, d) for x, d in zip(a_.kwonlyargs, a_.kw_defaults)]:
+                        if isinstance(d_, ast.Constant) and d_.value is None:
+                            optional.add(p_)
+                    rep.instance('R7', f'{fq_}: handler removes {norm(rid, 50)}')
+                    if isinstance(rid, ast.Name) and rid.id in optional:
+                        rep.violation('R7', loc(c.module, rc_), fq_, f'handler removes node_id={rid.id} (an optional argument)',
+                                      f'the compensating handler removes the element by the argument `{rid.id}`, which is None whenever the caller '
+                                      f'let the library generate the id: the rollback then removes nothing (or fails) and the partially built '
+                                      f'element stays in the model')
 
     # ---- R3 ----
     apg = prog.cls('fim.graph.abc_property_graph:ABCPropertyGraph')
